@@ -237,3 +237,10 @@ func mutate(r *rng.R, w []int, alpha []int) []int {
 	}
 	return out
 }
+
+func tail(s string, n int) string {
+	if len(s) > n {
+		return s[len(s)-n:]
+	}
+	return s
+}
